@@ -1228,7 +1228,9 @@ Section Origins.
         - apply not_eq_sym in Nk'. apply String.eqb_neq in Nk'. now rewrite Nk', orb_false_r. }
       assert (Hone : forall e, In e req -> fst e = next -> snd e = rem).
       { intros [k w] He Ek. cbn in *. subst k. apply smap_get_In in Er. apply (nodup_keys_unique req next); auto. }
-      rewrite filter_app. cbn [filter]. unfold rel_push at 2. rewrite Er.
+      assert (Ep : rel_push tn req next = mem tn rem && is_nil (sset_remove tn rem))
+        by (unfold rel_push; now rewrite Er).
+      rewrite filter_app. cbn [filter]. rewrite Ep.
       destruct (mem tn rem) eqn:Em; cbn [andb].
       + rewrite (Hupd (sset_remove tn rem)).
         2:{ intros e He Ee. now rewrite (Hone e He Ee). }
@@ -1238,7 +1240,7 @@ Section Origins.
       + eexists. split; [reflexivity|]. rewrite app_nil_r. f_equal.
         apply map_ext_in. intros [k w] He. unfold rel_upd. cbn [fst snd]. rewrite mem_snoc.
         destruct (String.eqb_spec k next) as [->|Nk']; [|now rewrite orb_false_r].
-        rewrite Hnp. cbn [orb]. f_equal. rewrite (Hone _ He eq_refl). cbn [snd].
+        rewrite Hnp. cbn [orb]. f_equal. pose proof (Hone _ He eq_refl) as Hw. cbn [snd] in Hw. subst w.
         symmetry. apply sset_remove_notin. now apply mem_false.
     - rewrite E. f_equal. exact P.
   Qed.
